@@ -85,6 +85,9 @@ def run_case(machine, case, wall_s=RUN_WALL_S):
 def _worker_batch(args):
     """Execute a batch of run indices; return aggregated summary."""
     mname, prop, tier, verif_seed, indices = args
+    # the engine logs a warning for every I/O error it maps to a BASIC error
+    import logging
+    logging.disable(logging.WARNING)
     faulthandler.dump_traceback_later(RUN_WALL_S * len(indices) + 120, exit=True)
     try:
         machine = load_machine(mname)
@@ -212,9 +215,9 @@ def match_known(prop, sig, known):
 # replay
 
 def write_replay(prop, mname, case, v, digest):
-    d = os.path.join(VERIF, 'replays')
+    d = os.environ.get('VERIF_REPLAY_DIR') or os.path.join(VERIF, 'replays')
     os.makedirs(d, exist_ok=True)
-    h = hashlib.sha256(json.dumps(case['ops'], sort_keys=True).encode()).hexdigest()[:8]
+    h = hashlib.sha256((v['sig'] + json.dumps([case['cfg'], case['ops']], sort_keys=True, default=str)).encode()).hexdigest()[:8]
     path = os.path.join(d, '%s-%s-%s.json' % (prop, case.get('seed', 0), h))
     with open(path, 'w') as f:
         json.dump({
@@ -289,9 +292,12 @@ def check_main(prop, mname, argv=None, level_text=None):
         'runs': 0, 'stats': collections.Counter(), 'faults': collections.Counter(),
         'probes': collections.Counter(), 'states': set(), 'status': collections.Counter(),
         'violations': [], 'sim_us': 0, 'samples': [], 'other': collections.Counter(),
+        'known_counts': collections.Counter(),
     }
     first_seed = K.derive_seed(prop, verif_seed, 0)
     harness_error = None
+    known = load_known()
+    unknown_violations = 0
     ctx = multiprocessing.get_context('fork')
     next_i = 0
     stop_submitting = False
@@ -313,19 +319,26 @@ def check_main(prop, mname, argv=None, level_text=None):
                         total[k].update(agg[k])
                     total['states'] |= agg['states']
                     total['sim_us'] += agg['sim_us']
-                    total['violations'].extend(agg['violations'])
+                    for rec in agg['violations']:
+                        if match_known(prop, rec['v']['sig'], known) is None:
+                            unknown_violations += 1
+                            total['violations'].append(rec)
+                        else:
+                            # keep a few per known signature (for the KNOWN-FINDING lines), count the rest
+                            total['known_counts'][rec['v']['sig']] += 1
+                            if total['known_counts'][rec['v']['sig']] <= 2:
+                                total['violations'].append(rec)
                     if len(total['samples']) < 3:
                         total['samples'].extend(agg['samples'])
                 if time.monotonic() - t0 > budget_s:
                     stop_submitting = True
                 # stop early once several violations are in: they need minimising
-                if len(total['violations']) >= 40:
+                if unknown_violations >= int(os.environ.get('VERIF_MAX_VIOLATIONS', '40')):
                     stop_submitting = True
         except BrokenProcessPool as e:
             harness_error = 'worker died: %r' % (e,)
     explore_s = time.monotonic() - t0
 
-    known = load_known()
     # group violations by signature, earliest run index first
     by_sig = collections.OrderedDict()
     for rec in sorted(total['violations'], key=lambda r: (r['index'], r['v']['sig'])):
@@ -336,11 +349,14 @@ def check_main(prop, mname, argv=None, level_text=None):
     for sig, recs in by_sig.items():
         k = match_known(prop, sig, known)
         if k is not None:
-            print('KNOWN-FINDING: property=%s %s [%s] (%d runs)' % (prop, k.get('what', ''), sig, len(recs)))
-            known_hits.append({'signature': sig, 'runs': len(recs)})
+            nk = total['known_counts'].get(sig, len(recs))
+            print('KNOWN-FINDING: property=%s %s [%s] (%d runs)' % (prop, k.get('what', ''), sig, nk))
+            known_hits.append({'signature': sig, 'runs': nk})
             continue
-        if len(reported) >= 3:
+        if len(reported) >= int(os.environ.get('VERIF_MAX_REPORT', '3')):
             exit_code = 1
+            print('further violation class (not minimised): %s (%d runs, first index %d): %s' % (
+                sig, len(recs), recs[0]['index'], str(recs[0]['v']['detail'])[:300].replace('\n', ' | ')))
             continue
         rec = recs[0]
         case = rec['case']
